@@ -27,7 +27,7 @@ import (
 	"verif/internal/model"
 )
 
-const rule = "cases: (signing type, crypto type, seed) x every API path that yields a Destination (NewDestination from a constructed and from a parsed KeysAndCert, NewDestinationFromBytes, ReadDestination, ReadLeaseSet, ReadDestinationFromLeaseSet, ReadLeaseSet2 and ReadMetaLeaseSet with and without an offline-key block and with the other flag bits, RouterIdentity.AsDestination, CreateBlindedDestination, DecryptInnerData on ciphertexts crafted by an independent encryptor, inner LeaseSet2 with and without offline keys) or a RouterIdentity (NewRouterIdentity, NewRouterIdentityWithCompressiblePadding, NewRouterIdentityFromKeysAndCert, NewRouterIdentityFromBytes, ReadRouterIdentity, ReadRouterInfo); types {0..20} x {0..10,255} exhaustively each run, boundary codes 65279..65535 and sampled codes by rapid; wire forms are built byte-wise (key material sized by the specification table, excess key bytes in the certificate). Oracle: policy table transcribed from the specification's usage columns - a Destination never declares signing 4,5,6,8 or crypto 5,6,7; a RouterIdentity additionally never signing 11; if a path returns without error the declared types are outside the table; every permitted and supported pair (signing {0,1,2,7} x crypto {0,4}, plus 11 for Destinations) succeeds on every path. Non-trivial: pair prohibited or permitted-and-supported; distinct by (pair, path)."
+const rule = "cases: (signing type, crypto type, seed) x every API path that yields a Destination (NewDestination from a constructed, from a parsed and from a reused KeysAndCert object that held a permitted identity before, NewDestinationFromBytes, ReadDestination, ReadLeaseSet, ReadDestinationFromLeaseSet, ReadLeaseSet2 and ReadMetaLeaseSet with and without an offline-key block and with the other flag bits, RouterIdentity.AsDestination, CreateBlindedDestination, DecryptInnerData on ciphertexts crafted by an independent encryptor, inner LeaseSet2 with and without offline keys) or a RouterIdentity (NewRouterIdentity, NewRouterIdentityWithCompressiblePadding, NewRouterIdentityFromKeysAndCert with a fresh and with a reused KeysAndCert object, NewRouterIdentityFromBytes, ReadRouterIdentity, ReadRouterInfo); types {0..20} x {0..10,255} exhaustively each run, boundary codes 65279..65535 and sampled codes by rapid; the pair (0,0) also as the NULL-certificate 387-byte identity; wire forms are built byte-wise (key material sized by the specification table, excess key bytes in the certificate). Oracle: policy table transcribed from the specification's usage columns - a Destination never declares signing 4,5,6,8 or crypto 5,6,7; a RouterIdentity additionally never signing 11; if a path returns without error the declared types are outside the table; every permitted and supported pair (signing {0,1,2,7} x crypto {0,4}, plus 11 for Destinations) succeeds on every path. Non-trivial: pair prohibited or permitted-and-supported; distinct by (pair, path)."
 
 func TestMain(m *testing.M) { ev.Main(m, "C09", rule) }
 
@@ -44,6 +44,8 @@ type Case struct {
 	Sig  int    `json:"sig"`
 	Enc  int    `json:"enc"`
 	Seed uint64 `json:"seed"`
+	// Null: the pair (0, 0) expressed by a NULL certificate (the classic 387-byte identity)
+	Null bool `json:"null_cert,omitempty"`
 }
 
 // rawIdent builds identity bytes for arbitrary type codes.
@@ -167,6 +169,23 @@ var destPaths = []destPath{
 		if err != nil {
 			return nil, err
 		}
+		return destination.NewDestination(k)
+	}},
+	{"NewDestination(reused *KeysAndCert)", func(id []byte, _, _ int, seed uint64) (*destination.Destination, error) {
+		// one scratch KeysAndCert object: first it holds a permitted identity and is
+		// wrapped, then it is overwritten with the identity under test and wrapped again
+		k, _, err := keys_and_cert.ReadKeysAndCert(rawIdent(7, 4, seed+5))
+		if err != nil {
+			return nil, err
+		}
+		if _, err := destination.NewDestination(k); err != nil {
+			return nil, fmt.Errorf("first use: %v", err)
+		}
+		k2, _, err := keys_and_cert.ReadKeysAndCert(id)
+		if err != nil {
+			return nil, err
+		}
+		*k = *k2
 		return destination.NewDestination(k)
 	}},
 	{"NewDestination(NewKeysAndCert)", func(id []byte, st, et int, _ uint64) (*destination.Destination, error) {
@@ -326,6 +345,21 @@ var riPaths = []riPath{
 		}
 		return router_identity.NewRouterIdentityFromKeysAndCert(k)
 	}},
+	{"NewRouterIdentityFromKeysAndCert(reused *KeysAndCert)", func(id []byte, _, _ int, seed uint64) (*router_identity.RouterIdentity, error) {
+		k, _, err := keys_and_cert.ReadKeysAndCert(rawIdent(7, 4, seed+5))
+		if err != nil {
+			return nil, err
+		}
+		if _, err := router_identity.NewRouterIdentityFromKeysAndCert(k); err != nil {
+			return nil, fmt.Errorf("first use: %v", err)
+		}
+		k2, _, err := keys_and_cert.ReadKeysAndCert(id)
+		if err != nil {
+			return nil, err
+		}
+		*k = *k2
+		return router_identity.NewRouterIdentityFromKeysAndCert(k)
+	}},
 	{"NewRouterIdentity", func(id []byte, _, _ int, _ uint64) (*router_identity.RouterIdentity, error) {
 		return riFromParts(id, false)
 	}},
@@ -347,7 +381,18 @@ var riPaths = []riPath{
 func check(c Case, r *ev.Rec) error {
 	st, et := c.Sig, c.Enc
 	id := rawIdent(st, et, c.Seed)
+	if c.Null {
+		st, et = 0, 0
+		id = append(rawIdent(0, 0, c.Seed)[:384], 0, 0, 0)
+		r.Class("null-certificate")
+	}
+	// the constructors that assemble an identity from parts take a KeyCertificate;
+	// a NULL-certificate identity has no such form
+	fromParts := map[string]bool{"NewDestination(NewKeysAndCert)": true, "NewRouterIdentity": true, "NewRouterIdentityWithCompressiblePadding": true}
 	for _, p := range destPaths {
+		if c.Null && fromParts[p.name] {
+			continue
+		}
 		d, err := p.f(id, st, et, c.Seed)
 		r.Eval()
 		if err == nil {
@@ -377,6 +422,9 @@ func check(c Case, r *ev.Rec) error {
 		}
 	}
 	for _, p := range riPaths {
+		if c.Null && fromParts[p.name] {
+			continue
+		}
 		ri, err := p.f(id, st, et, c.Seed)
 		r.Eval()
 		if err == nil {
@@ -421,6 +469,7 @@ var prop = &ev.Prop[Case]{Sub: "policy", Quick: 40000, Thorough: 400000,
 			Sig:  pick("sig", []int{0, 1, 2, 3, 4, 5, 6, 7, 8, 9, 10, 11, 12}),
 			Enc:  pick("enc", []int{0, 1, 2, 3, 4, 5, 6, 7, 8, 255}),
 			Seed: rapid.Uint64Range(1, 1<<30).Draw(t, "seed"),
+			Null: rapid.IntRange(0, 19).Draw(t, "null") == 0,
 		}
 	}, Check: check}
 
@@ -439,6 +488,11 @@ func TestEnumKnownCodes(t *testing.T) {
 				}
 				for seed := uint64(1); seed <= 2; seed++ {
 					if err := prop.One(Case{Sig: st, Enc: et, Seed: seed*100 + uint64(n)}); err != nil {
+						return err
+					}
+				}
+				if st == 0 && et == 0 {
+					if err := prop.One(Case{Seed: 77, Null: true}); err != nil {
 						return err
 					}
 				}
